@@ -794,6 +794,41 @@ func (c *Ctx) condShape(cond ssa.Value, d int) string {
 		}
 		return "flag"
 	}
+	// a package-local predicate helper: the shape of what it returns
+	cv := cond
+	for {
+		if u, ok := cv.(*ssa.UnOp); ok && u.Op == token.NOT {
+			cv = u.X
+			continue
+		}
+		break
+	}
+	if call, ok := cv.(*ssa.Call); ok && d < 6 {
+		if sc := call.Call.StaticCallee(); sc != nil && sc.Blocks != nil && PkgPathOf(sc) == PkgPathOf(call.Parent()) && len(sc.Blocks) <= 12 &&
+			sc.Signature.Results().Len() == 1 && types.Identical(sc.Signature.Results().At(0).Type().Underlying(), types.Typ[types.Bool]) &&
+			funcShort(sc) != "(*filters/encrypt.Filter).ignore" {
+			var shapes []string
+			for _, ret := range Returns(sc) {
+				rv := RetVals(ret)
+				if _, isC := rv[0].(*ssa.Const); isC {
+					continue
+				}
+				sh := c.condShape(rv[0], d+1)
+				if strings.HasPrefix(sh, "other:") {
+					return sh
+				}
+				for _, x := range strings.Split(sh, "|") {
+					if !contains(shapes, x) {
+						shapes = append(shapes, x)
+					}
+				}
+			}
+			if len(shapes) > 0 {
+				sort.Strings(shapes)
+				return strings.Join(shapes, "|")
+			}
+		}
+	}
 	return skipShape(c.P.atomOf(cond, func(v ssa.Value) ssa.Value { return v }, nil, nil))
 }
 
@@ -880,28 +915,8 @@ func (c *Ctx) ruleRegistryInserts() {
 			n++
 			r.SawFn(p.ShortFn(f))
 			construct := p.ShortFn(f) + ":insert"
-			cell, isA := mu.Value.(*ssa.Alloc)
-			if !isA {
-				r.Bad(rule, construct, p.InstrPos(in), "Broker.nodes receives "+tb.Of(mu.Value).String()+", not a fresh usage record")
-				return
-			}
-			// fields of the literal (flow-insensitive: every store into the fresh cell)
-			var nodeT *Term
-			for _, ref := range nonDebugRefs(cell) {
-				fa, ok := ref.(*ssa.FieldAddr)
-				if !ok {
-					continue
-				}
-				name := fa.X.Type().Underlying().(*types.Pointer).Elem().Underlying().(*types.Struct).Field(fa.Field).Name()
-				for _, r2 := range nonDebugRefs(fa) {
-					if st, ok := r2.(*ssa.Store); ok && st.Addr == ssa.Value(fa) && name == "node" {
-						nodeT = tb.Of(st.Val)
-					}
-				}
-			}
-			okNode := nodeT != nil && nodeT.Op == "Param"
-			why := "the node stored in the registry is " + nodeT.String() + ", not a node handed in by the caller (a node taken out of the registry for closing must not be put back)"
-			r.Check(okNode, rule, construct, p.InstrPos(in), "the registry gains a fresh record around a caller-supplied node", why)
+			ok2, why := c.freshUsageRecord(mu.Value, f, 0)
+			r.Check(ok2, rule, construct, p.InstrPos(in), "the registry gains a fresh record around a caller-supplied node", why)
 		})
 	}
 	if n < 1 {
@@ -958,6 +973,48 @@ func (c *Ctx) ruleGatedReset(rule string) {
 			}
 			lazy := dominatedBy(func(l, rr *Term) bool { return l.Is("Field", name) && rr.Is("Const", "nil") })
 			noBroker := dominatedBy(func(l, rr *Term) bool { return l.Is("Field", "Broker") && rr.Is("Const", "nil") })
+			if !noBroker && !lazy && f.Parent() == nil {
+				// a helper ("drop everything"): every call site must be dominated by the no-Broker test
+				sites := 0
+				all := true
+				for _, g := range p.FuncsIn(PkgGated) {
+					gtb := p.NewTerms(nil)
+					eachInstr(g, func(ci ssa.Instruction) {
+						call, ok := ci.(ssa.CallInstruction)
+						if !ok || call.Common().StaticCallee() != f {
+							return
+						}
+						sites++
+						if _, isDefer := ci.(*ssa.Defer); isDefer || g.Parent() != nil {
+							all = false
+							return
+						}
+						dom := false
+						for d := ci.Block(); d != nil && d.Idom() != nil; d = d.Idom() {
+							cc, ts, fs := condOf(d.Idom())
+							bo, isB := cc.(*ssa.BinOp)
+							if !isB || (bo.Op != token.EQL && bo.Op != token.NEQ) {
+								continue
+							}
+							edge := ts
+							if bo.Op == token.NEQ {
+								edge = fs
+							}
+							if !(edge == d || edge.Dominates(ci.Block())) {
+								continue
+							}
+							l, rr := gtb.Of(bo.X), gtb.Of(bo.Y)
+							if (l.Is("Field", "Broker") && rr.Is("Const", "nil")) || (rr.Is("Field", "Broker") && l.Is("Const", "nil")) {
+								dom = true
+							}
+						}
+						if !dom {
+							all = false
+						}
+					})
+				}
+				noBroker = sites > 0 && all
+			}
 			vt := tb.Of(st.Val)
 			switch {
 			case lazy && !isNilConst(st.Val):
@@ -982,13 +1039,76 @@ func (c *Ctx) ruleGatedReset(rule string) {
 // shared by every node of every pipeline of every Broker, which is exactly what
 // "safe to share across pipelines and goroutines" excludes unless proven
 // otherwise by reading.
+type use struct {
+	fn    *ssa.Function
+	in    ssa.Instruction
+	write bool
+}
+
+func us2instrs(us []use) []ssa.Instruction {
+	var out []ssa.Instruction
+	for _, u := range us {
+		if u.fn.Name() != "init" {
+			out = append(out, u.in)
+		}
+	}
+	return out
+}
+
+// readOnlyGlobal: outside init the global is only loaded, and the loaded value is
+// only looked up / indexed / ranged / measured / compared (never stored into, never
+// passed to a call, never converted to an interface).
+func readOnlyGlobal(g *ssa.Global, uses []ssa.Instruction) bool {
+	var roValue func(v ssa.Value, d int) bool
+	roValue = func(v ssa.Value, d int) bool {
+		if d > 4 {
+			return false
+		}
+		for _, ref := range nonDebugRefs(v) {
+			switch x := ref.(type) {
+			case *ssa.Lookup:
+				if x.X != v {
+					return false
+				}
+			case *ssa.Index:
+			case *ssa.IndexAddr:
+				for _, r2 := range nonDebugRefs(x) {
+					if ld, ok := r2.(*ssa.UnOp); !ok || ld.Op != token.MUL {
+						return false
+					}
+				}
+			case *ssa.Range:
+			case *ssa.BinOp:
+			case *ssa.Field:
+				if !roValue(x, d+1) {
+					return false
+				}
+			case *ssa.Extract:
+			case ssa.CallInstruction:
+				b, ok := x.Common().Value.(*ssa.Builtin)
+				if !ok || (b.Name() != "len" && b.Name() != "cap") {
+					return false
+				}
+			default:
+				return false
+			}
+		}
+		return true
+	}
+	for _, in := range uses {
+		ld, ok := in.(*ssa.UnOp)
+		if !ok || ld.Op != token.MUL || ld.X != ssa.Value(g) {
+			return false
+		}
+		if !roValue(ld, 0) {
+			return false
+		}
+	}
+	return len(uses) > 0
+}
+
 func (c *Ctx) ruleGlobals(rule string) {
 	p, r := c.P, c.R
-	type use struct {
-		fn    *ssa.Function
-		in    ssa.Instruction
-		write bool
-	}
 	uses := map[*ssa.Global][]use{}
 	for _, f := range c.P.Funcs {
 		if p.InCtl(f) {
@@ -1033,6 +1153,10 @@ func (c *Ctx) ruleGlobals(rule string) {
 			immutable = types.TypeString(elem, shortQual) == "error"
 		default:
 			_ = u
+		}
+		if !immutable && readOnlyGlobal(g, us2instrs(us)) {
+			r.Ok(rule, construct+":read-only", p.Pos(g.Pos()), "only read (lookups, indexing, ranging, comparisons): never written, never handed out")
+			continue
 		}
 		if !immutable {
 			var who string
@@ -1112,4 +1236,574 @@ func postReaches(s, target, stop *ssa.BasicBlock) bool {
 		return true
 	}
 	return walk(s)
+}
+
+// freshUsageRecord: v is a freshly built nodeUsage whose node field is a
+// parameter of the function building it (a node handed in by the caller); when v
+// is itself a parameter of a package-local helper, every call site must pass such a record.
+func (c *Ctx) freshUsageRecord(v ssa.Value, f *ssa.Function, d int) (bool, string) {
+	p := c.P
+	tb := p.NewTerms(nil)
+	switch x := v.(type) {
+	case *ssa.Alloc:
+		var nodeT *Term
+		for _, ref := range nonDebugRefs(x) {
+			fa, ok := ref.(*ssa.FieldAddr)
+			if !ok {
+				continue
+			}
+			name := fa.X.Type().Underlying().(*types.Pointer).Elem().Underlying().(*types.Struct).Field(fa.Field).Name()
+			for _, r2 := range nonDebugRefs(fa) {
+				if st, ok := r2.(*ssa.Store); ok && st.Addr == ssa.Value(fa) && name == "node" {
+					nodeT = tb.Of(st.Val)
+				}
+			}
+		}
+		if nodeT != nil && nodeT.Op == "Param" {
+			return true, ""
+		}
+		return false, "the node stored in the registry is " + nodeT.String() + ", not a node handed in by the caller (a node taken out of the registry for closing must not be put back)"
+	case *ssa.Parameter:
+		if d >= 2 {
+			break
+		}
+		idx := -1
+		for i, prm := range f.Params {
+			if prm == x {
+				idx = i
+			}
+		}
+		sites := 0
+		for _, g := range p.FuncsIn(PkgRoot) {
+			var bad string
+			eachInstr(g, func(ci ssa.Instruction) {
+				call, ok := ci.(ssa.CallInstruction)
+				if !ok || call.Common().StaticCallee() != f || idx < 0 || idx >= len(call.Common().Args) {
+					return
+				}
+				sites++
+				if ok2, why := c.freshUsageRecord(call.Common().Args[idx], g, d+1); !ok2 {
+					bad = why
+				}
+			})
+			if bad != "" {
+				return false, bad
+			}
+		}
+		if sites > 0 {
+			return true, ""
+		}
+	}
+	return false, "Broker.nodes receives " + tb.Of(v).String() + ", not a fresh usage record around a caller-supplied node"
+}
+
+// ruleNodeTypes: every stock node reports its kind truthfully and
+// unconditionally: Type() is a single return of the NodeType constant of its
+// role. The traversal classifies completions as sink completions by Type()
+// (C02) and pipeline validation orders nodes by Type() (C05); the table is the
+// nine implementations confirmed by reading, and the inventory of Type()
+// implementations found in the program must equal it.
+func (c *Ctx) ruleNodeTypes(rule string) {
+	p, r := c.P, c.R
+	want := map[string]string{
+		"(*eventlogger.FileSink).Type":                             "NodeTypeSink",
+		"(*sinks/writer.Sink).Type":                                "NodeTypeSink",
+		"(*sinks/channel.ChannelSink).Type":                        "NodeTypeSink",
+		"(*eventlogger.Filter).Type":                               "NodeTypeFilter",
+		"(*filters/encrypt.Filter).Type":                           "NodeTypeFilter",
+		"(*filters/gated.Filter).Type":                             "NodeTypeFilter",
+		"(*eventlogger.JSONFormatter).Type":                        "NodeTypeFormatter",
+		"(*eventlogger.JSONFormatterFilter).Type":                  "NodeTypeFormatterFilter",
+		"(*formatter_filters/cloudevents.FormatterFilter).Type":    "NodeTypeFormatterFilter",
+	}
+	consts := map[string]string{}
+	if pkg := p.SSAPkgs[PkgRoot]; pkg != nil {
+		for _, nm := range []string{"NodeTypeSink", "NodeTypeFilter", "NodeTypeFormatter", "NodeTypeFormatterFilter"} {
+			if k, ok := pkg.Members[nm].(*ssa.NamedConst); ok {
+				consts[nm] = k.Value.Value.ExactString()
+			}
+		}
+	}
+	seen := map[string]bool{}
+	for _, f := range p.Funcs {
+		if p.InCtl(f) || f.Name() != "Type" || f.Signature.Recv() == nil || f.Synthetic != "" || f.Signature.Results().Len() != 1 ||
+			typeShort(f.Signature.Results().At(0).Type()) != "eventlogger.NodeType" || strings.Contains(PkgPathOf(f), "/testing/") {
+			continue
+		}
+		name := p.ShortFn(f)
+		seen[name] = true
+		w, known := want[name]
+		if !known {
+			r.Bad(rule, name, p.Pos(f.Pos()), "a Node implementation that is not in the confirmed table of stock nodes")
+			continue
+		}
+		rets := Returns(f)
+		ok := len(rets) == 1 && len(f.Blocks) == 1
+		got := ""
+		if len(rets) > 0 {
+			got = p.NewTerms(nil).Of(RetVals(rets[0])[0]).String()
+		}
+		ok = ok && got == "Const("+consts[w]+")"
+		r.Check(ok, rule, name, p.Pos(f.Pos()), "unconditionally returns "+w, "Type() is not the unconditional constant "+w+" (returns "+got+"): completions are classified and pipelines validated by this value")
+	}
+	for name := range want {
+		if !seen[name] {
+			r.Und(rule, name, "", "stock node Type() implementation not found")
+		}
+	}
+}
+
+// ruleChannelCtor (C13.ctor): what ChannelSink.Process selects on is what the
+// caller configured: NewChannelSink stores exactly its channel and its timeout
+// (not swapped, defaulted or clamped) after excluding a nil channel and a
+// non-positive timeout, and nothing writes those two fields afterwards.
+func (c *Ctx) ruleChannelCtor() {
+	p, r := c.P, c.R
+	const rule = "C13.ctor"
+	fn := c.Fn(rule, PkgChannel, "", "NewChannelSink")
+	if fn == nil {
+		return
+	}
+	nOK := 0
+	for _, pa := range c.enum(rule, fn, PathOpts{Inline: inlineSmall()}) {
+		rv := pa.RetVals()
+		if rv == nil || len(rv) != 2 || !isNilConst(rv[1]) {
+			continue
+		}
+		cell, ok := rv[0].(*ssa.Alloc)
+		if !ok {
+			r.Bad(rule, "NewChannelSink:result", p.InstrPos(pa.End), "a successful path does not return a freshly built sink")
+			continue
+		}
+		tb := pa.TermsAt(pa.LastStep())
+		lf := litFields(pa, cell, len(pa.Steps))
+		okF := lf["eventChan"] != nil && lf["timeoutDuration"] != nil && tb.Of(lf["eventChan"]).IsParam("0:c") && tb.Of(lf["timeoutDuration"]).IsParam("1:t")
+		nilC, f1 := hasAtom(pa, func(at Atom) bool { return at.Op == "eq" && at.L.IsParam("0:c") && at.R.Is("Const", "nil") })
+		pos, f2 := hasAtom(pa, func(at Atom) bool { return at.Op == "lt" && at.L.Is("Const", "0") && at.R.IsParam("1:t") })
+		okG := f1 && !nilC && f2 && pos
+		if okF && okG {
+			nOK++
+		} else {
+			r.Bad(rule, "NewChannelSink:fields", p.InstrPos(pa.End), fmt.Sprintf("the sink is built with eventChan=%s timeoutDuration=%s (guards: channel non-nil=%v, timeout > 0=%v); expected the two arguments after both guards", lfName(tb, lf["eventChan"]), lfName(tb, lf["timeoutDuration"]), f1 && !nilC, f2 && pos))
+		}
+	}
+	r.Check(nOK >= 1, rule, "NewChannelSink", p.Pos(fn.Pos()), "the sink carries exactly the given channel and timeout, after rejecting a nil channel and a non-positive timeout", "no successful constructor path verified")
+	// immutability after construction
+	for _, f := range p.FuncsIn(PkgChannel) {
+		eachInstr(f, func(in ssa.Instruction) {
+			st, ok := in.(*ssa.Store)
+			if !ok {
+				return
+			}
+			fa, ok := st.Addr.(*ssa.FieldAddr)
+			if !ok || typeShort(fa.X.Type()) != "channel.ChannelSink" || isFresh(fa.X) {
+				return
+			}
+			r.Bad(rule, p.ShortFn(f)+":write", p.InstrPos(in), "a field of ChannelSink is written after construction (Process reads them without a lock)")
+		})
+	}
+}
+
+// ruleFlatten (C06.flatten): the set that both the increments (RegisterPipeline)
+// and the releases (graphMap.Nodes) are computed from really contains every node
+// of the linked pipeline: in linkedNode.flatten's worklist loop the popped node's
+// id is recorded unconditionally and all of its successors are pushed
+// unconditionally (a full inner loop reached on every iteration). A skip of
+// "already seen ids" that also skips the successors silently leaves every node
+// behind a repeated id out of the reference counts.
+func (c *Ctx) ruleFlatten() {
+	p, r := c.P, c.R
+	const rule = "C06.flatten"
+	fn := c.Fn(rule, PkgRoot, "linkedNode", "flatten")
+	if fn == nil {
+		return
+	}
+	tb := p.NewTerms(nil)
+	var rec *ssa.MapUpdate
+	var nextLoad ssa.Instruction
+	eachInstr(fn, func(in ssa.Instruction) {
+		switch x := in.(type) {
+		case *ssa.MapUpdate:
+			if t := tb.Of(x.Key); t.Is("Field", "nodeID") {
+				rec = x
+			}
+		case *ssa.UnOp:
+			if x.Op == token.MUL {
+				if fa, ok := x.X.(*ssa.FieldAddr); ok && typeShort(fa.X.Type()) == "eventlogger.linkedNode" {
+					st := fa.X.Type().Underlying().(*types.Pointer).Elem().Underlying().(*types.Struct)
+					if st.Field(fa.Field).Name() == "next" && nextLoad == nil {
+						nextLoad = in
+					}
+				}
+			}
+		}
+	})
+	if rec == nil || nextLoad == nil {
+		r.Und(rule, "flatten:shape", p.Pos(fn.Pos()), "cannot find the recording of node ids or the read of the successors")
+		return
+	}
+	okRec, at1 := unconditionalInLoop(rec)
+	where := func(b *ssa.BasicBlock) string {
+		if b == nil {
+			return ""
+		}
+		return " (branch at " + p.InstrPos(lastInstr(b)) + ")"
+	}
+	if !okRec && at1 != nil {
+		// recording "if not present yet" is the same as recording
+		if cond, _, _ := condOf(at1); cond != nil {
+			ct := tb.Of(cond)
+			if ct.Op == "Extract" && ct.Name == "1" && ct.Args[0].Op == "Lookup" && ct.Args[0].Args[0].V == rec.Map {
+				okRec = true
+			}
+		}
+	}
+	r.Check(okRec, rule, "flatten:record", p.InstrPos(rec), "every visited node's id is recorded", "a visited node's id is recorded only under a condition"+where(at1))
+	okNext, at2 := unconditionalInLoop(nextLoad)
+	r.Check(okNext, rule, "flatten:successors", p.InstrPos(nextLoad), "the successors of every visited node are visited", "the successors of a visited node are pushed only under a condition"+where(at2)+": the nodes linked behind a node whose id was already seen are never visited, so they are neither counted as in use nor released")
+	// the push itself is a full loop over node.next (or a variadic append of it)
+	okPush := false
+	pushWhy := ""
+	eachInstr(fn, func(in ssa.Instruction) {
+		call, ok := in.(*ssa.Call)
+		if !ok {
+			return
+		}
+		if b, isB := call.Call.Value.(*ssa.Builtin); !isB || b.Name() != "append" {
+			return
+		}
+		arg := tb.Of(call.Call.Args[1])
+		if arg.Is("Field", "next") {
+			okPush = true // append(stack, node.next...)
+		}
+		if arg.Op == "Varargs" && len(arg.Args) == 1 && arg.Args[0].Op == "Index" && arg.Args[0].Args[0].Is("Field", "next") {
+			full, why := innerLoopFull(call)
+			unc, _ := unconditionalInLoop(call)
+			if full && unc {
+				okPush = true
+			} else {
+				pushWhy = fmt.Sprintf(" (full loop=%v %s, unconditional=%v)", full, why, unc)
+			}
+		}
+	})
+	r.Check(okPush, rule, "flatten:push", p.Pos(fn.Pos()), "every successor is pushed (full, unconditional loop over node.next)", "not every successor of a visited node is pushed onto the worklist"+pushWhy)
+}
+
+// innerLoopFull: the innermost natural loop containing in is left only through its
+// header's own continuation test (exhaustion): no break, return or goto out of the body.
+func innerLoopFull(in ssa.Instruction) (bool, string) {
+	h := innermostHeader(in.Block())
+	if h == nil {
+		return false, "not inside a loop"
+	}
+	body := map[*ssa.BasicBlock]bool{h: true}
+	reach := blocksReaching(h)
+	for _, b := range h.Parent().Blocks {
+		if h.Dominates(b) && reach[b] {
+			body[b] = true
+		}
+	}
+	for b := range body {
+		for _, s := range b.Succs {
+			if !body[s] && b != h {
+				return false, "the loop body can leave the loop at " + b.Parent().Prog.Fset.Position(lastInstr(b).Pos()).String()
+			}
+		}
+	}
+	return true, ""
+}
+
+// ruleOneSection (C04.section): check-then-act atomicity of the mutating Broker
+// calls. On every path of RegisterNode, RegisterPipeline, RemoveNode,
+// RemovePipeline, RemovePipelineAndNodes and the two threshold setters (helpers
+// inlined), all accesses to broker state — lookups/updates of Broker.nodes and
+// Broker.graphs, every graphMap operation, every read or write of a usage
+// record — lie in ONE critical section of Broker.lock: the lock is not released
+// between the first and the last of them. Validating under one acquisition and
+// committing under another lets a concurrent call invalidate what was checked,
+// although every single access is properly locked (so the lock-set rules and
+// the race detector stay silent).
+func (c *Ctx) ruleOneSection(rule string) {
+	p, r := c.P, c.R
+	n := 0
+	for _, name := range []string{"RegisterNode", "RegisterPipeline", "RemoveNode", "RemovePipeline", "RemovePipelineAndNodes", "SetSuccessThreshold", "SetSuccessThresholdSinks"} {
+		fn := c.Fn(rule, PkgRoot, "Broker", name)
+		if fn == nil {
+			continue
+		}
+		bad := false
+		nPaths := 0
+		for _, pa := range c.enum(rule, fn, PathOpts{Inline: func(caller *ssa.Function, call *ssa.Call, callee *ssa.Function) bool {
+			if PkgPathOf(caller) != PkgPathOf(callee) || len(callee.Blocks) > 60 {
+				return false
+			}
+			// graphMap methods and the pure helpers stay opaque calls (their accesses are the call itself)
+			if callee.Signature.Recv() != nil && typeShort(callee.Signature.Recv().Type()) == "eventlogger.graphMap" {
+				return false
+			}
+			switch funcShort(callee) {
+			case "eventlogger.getOpts", "eventlogger.linkNodes", "(eventlogger.Pipeline).validate", "(*eventlogger.graph).doValidate", "(*eventlogger.linkedNode).flatten", "(eventlogger.unregisteredNode).close":
+				return false
+			}
+			return true
+		}, InlineDepth: 3}) {
+			section, first, last := 0, -1, -1
+			var firstIn, lastIn ssa.Instruction
+			for _, s := range pa.Steps {
+				in := s.In
+				if s.Deferred {
+					if d, ok := in.(*ssa.Defer); ok {
+						if op := lockOpOf(&d.Call); op != nil && !op.Acquire && op.Class == "eventlogger.Broker.lock" {
+							section++
+						}
+					}
+					continue
+				}
+				if ci, ok := in.(ssa.CallInstruction); ok {
+					if _, isDefer := in.(*ssa.Defer); isDefer {
+						continue
+					}
+					if op := lockOpOf(ci.Common()); op != nil {
+						if !op.Acquire && op.Class == "eventlogger.Broker.lock" {
+							section++
+						}
+						continue
+					}
+				}
+				if !isBrokerStateAccess(pa, s) {
+					continue
+				}
+				if first < 0 {
+					first, firstIn = section, in
+				}
+				last, lastIn = section, in
+			}
+			if first < 0 {
+				continue
+			}
+			nPaths++
+			if first != last && !bad {
+				bad = true
+				r.Bad(rule, "(*Broker)."+name+":one-section", p.InstrPos(lastIn), "broker state is accessed in more than one critical section of Broker.lock on one path: first at "+p.InstrPos(firstIn)+", again after the lock was released at "+p.InstrPos(lastIn)+" — what was checked under the first acquisition can be invalidated by a concurrent call before it is acted upon", p.PathSummary(pa))
+			}
+		}
+		if !bad && nPaths > 0 {
+			n++
+			r.Ok(rule, "(*Broker)."+name+":one-section", p.Pos(fn.Pos()), fmt.Sprintf("%d paths: every access to broker state lies in one critical section", nPaths))
+		}
+	}
+	if n < 6 {
+		r.Und(rule, "instance-floor", "", fmt.Sprintf("only %d mutating Broker calls decided (7 expected)", n))
+	}
+}
+
+// isBrokerStateAccess: the step reads or writes the registry.
+func isBrokerStateAccess(pa *Path, s Step) bool {
+	tb := pa.TermsAt(s)
+	isReg := func(v ssa.Value) bool {
+		t := tb.Of(v)
+		return (t.Is("Field", "nodes") || t.Is("Field", "graphs")) && len(t.Args) == 1 && t.Args[0].V != nil && strings.Contains(typeShort(t.Args[0].V.Type()), "eventlogger.Broker")
+	}
+	switch x := s.In.(type) {
+	case *ssa.Lookup:
+		return isReg(x.X)
+	case *ssa.MapUpdate:
+		return isReg(x.Map)
+	case *ssa.Range:
+		return isReg(x.X)
+	case ssa.CallInstruction:
+		cc := x.Common()
+		if b, ok := cc.Value.(*ssa.Builtin); ok && b.Name() == "delete" {
+			return isReg(cc.Args[0])
+		}
+		if sc := cc.StaticCallee(); sc != nil && sc.Signature.Recv() != nil && typeShort(sc.Signature.Recv().Type()) == "eventlogger.graphMap" {
+			return true
+		}
+	case *ssa.UnOp:
+		if x.Op == token.MUL {
+			if fa, ok := x.X.(*ssa.FieldAddr); ok && typeShort(fa.X.Type()) == "eventlogger.nodeUsage" && !isFresh(fa.X) {
+				return true
+			}
+		}
+	case *ssa.Store:
+		if fa, ok := x.Addr.(*ssa.FieldAddr); ok && typeShort(fa.X.Type()) == "eventlogger.nodeUsage" && !isFresh(fa.X) {
+			return true
+		}
+	}
+	return false
+}
+
+// errorCarriedOnPaths is the path-sensitive complement of errorFlowRule for the
+// accumulator idiom: on every returning path of fn, for every fallible call on
+// the path, the call's error was either tested on that path (its branches are
+// decided by errorFlowRule) or the error the path returns is built from it. An
+// error that is merged into a variable which a later assignment overwrites is
+// neither — it is dropped on that path even though, flow-insensitively, "it
+// reaches a return".
+func (c *Ctx) errorCarriedOnPaths(rule string, fn *ssa.Function, exc []ErrException) {
+	p, r := c.P, c.R
+	errIdx, ok := returnsError(fn.Signature)
+	if !ok {
+		return
+	}
+	flagged := map[string]bool{}
+	for _, pa := range c.enum(rule, fn, PathOpts{}) {
+		rv := pa.RetVals()
+		if rv == nil || errIdx >= len(rv) {
+			continue
+		}
+		retT := pa.TermsAt(pa.LastStep()).Of(rv[errIdx])
+		for _, s := range pa.CallsOn() {
+			call, isCall := s.In.(*ssa.Call)
+			if !isCall {
+				continue
+			}
+			idx, fallible := returnsError(call.Call.Signature())
+			if !fallible || lockOpOf(&call.Call) != nil {
+				continue
+			}
+			name := calleeName(&call.Call)
+			skip := false
+			for _, e := range exc {
+				if e.Fn == p.ShortFn(fn) && e.Callee == name {
+					skip = true
+				}
+			}
+			if skip {
+				continue
+			}
+			var errVal ssa.Value = call
+			if call.Call.Signature().Results().Len() > 1 {
+				errVal = nil
+				for _, ref := range nonDebugRefs(call) {
+					if ex, ok := ref.(*ssa.Extract); ok && ex.Index == idx {
+						errVal = ex
+					}
+				}
+			}
+			if errVal == nil {
+				continue // discarded outright: reported by errorFlowRule
+			}
+			tested := false
+			for _, at := range pa.Atoms {
+				if (at.L != nil && termMentions(at.L, errVal, "\x00")) || (at.R != nil && termMentions(at.R, errVal, "\x00")) {
+					tested = true
+				}
+			}
+			if tested || termMentions(retT, errVal, "\x00") {
+				continue
+			}
+			construct := p.ShortFn(fn) + "->" + name + ":dropped-on-path"
+			if !flagged[construct] {
+				flagged[construct] = true
+				r.Bad(rule, construct, p.InstrPos(call), "on a path to "+p.InstrPos(pa.End)+" the error of this call is neither tested nor part of the returned error ("+retT.String()+"): a later assignment overwrote it, so the failure is lost: "+p.PathSummary(pa))
+			}
+		}
+	}
+	if len(flagged) == 0 {
+		r.Ok(rule, p.ShortFn(fn)+":carried-on-paths", p.Pos(fn.Pos()), "on every returning path every fallible call's error is tested or carried into the returned error")
+	}
+}
+
+// ruleGatedDiscard (C11.discard): "an accepted event is discarded only when no
+// Broker is configured or when composition or sending reports an error". Every
+// path of openGate on which the group's removal has been registered and the
+// composite is not handed to the Broker carries one of exactly these reasons:
+// composition failed, composition returned a Gateable payload (refused), or
+// Broker == nil. Any other early return (context state, size, age) silently drops
+// the group's events.
+func (c *Ctx) ruleGatedDiscard(rule string) {
+	p, r := c.P, c.R
+	fn := c.Fn(rule, PkgGated, "Filter", "openGate")
+	if fn == nil {
+		return
+	}
+	nDrop, nSend := 0, 0
+	for _, pa := range c.enum(rule, fn, PathOpts{Inline: inlineSmall()}) {
+		if _, ok := pa.End.(*ssa.Return); !ok {
+			continue
+		}
+		removal, sent, composed := false, false, false
+		var compose *ssa.Call
+		for _, s := range pa.Steps {
+			switch x := s.In.(type) {
+			case *ssa.Defer:
+				n := calleeName(&x.Call)
+				if n == "(*container/list.List).Remove" || n == "builtin delete" {
+					removal = true
+				}
+			case *ssa.Call:
+				n := calleeName(&x.Call)
+				if n == "(*container/list.List).Remove" || n == "builtin delete" {
+					removal = true
+				}
+				if strings.HasSuffix(n, ".Send") && strings.Contains(n, "invoke") {
+					sent = true
+				}
+				if n == "dynamic" && pa.TermsAt(s).Of(x.Call.Value).Is("Field", "composeFrom") {
+					composed, compose = true, x
+				}
+			}
+		}
+		if !removal {
+			continue // nothing was (going to be) removed: parameter checks before the defers
+		}
+		if sent {
+			nSend++
+			continue
+		}
+		nDrop++
+		reason := ""
+		if composed {
+			if pol, f := hasAtom(pa, func(at Atom) bool {
+				return at.Op == "eq" && at.R.Is("Const", "nil") && at.L.Op == "Extract" && at.L.Name == "2" && at.L.Args[0].V == ssa.Value(compose)
+			}); f && !pol {
+				reason = "composition failed"
+			}
+			if pol, f := hasAtom(pa, func(at Atom) bool {
+				return at.Op == "true" && at.L.Op == "Extract" && at.L.Name == "1" && at.L.Args[0].Is("Assert", "gated.Gateable")
+			}); f && pol {
+				reason = "composition returned a Gateable payload"
+			}
+			if pol, f := hasAtom(pa, func(at Atom) bool {
+				return at.Op == "eq" && at.L.Is("Field", "Broker") && at.R.Is("Const", "nil")
+			}); f && pol {
+				reason = "no Broker configured"
+			}
+		}
+		if reason == "" {
+			r.Bad(rule, "openGate:discard", p.InstrPos(pa.End), "a group is removed from the gate without being handed to the Broker on a path that established none of: composition failed, Gateable composite, no Broker — its events are silently discarded ("+p.PathSummary(pa)+")")
+		} else {
+			r.Ok(rule, "openGate:discard:"+reason, p.InstrPos(pa.End), "the group is dropped for a stated reason")
+		}
+	}
+	r.Check(nSend >= 1 && nDrop >= 3, rule, "openGate:paths", p.Pos(fn.Pos()), fmt.Sprintf("%d sending and %d dropping paths classified", nSend, nDrop), fmt.Sprintf("openGate has %d sending / %d dropping paths (>= 1 / >= 3 expected)", nSend, nDrop))
+}
+
+// ruleListOps (C17.listops / C11): arrival order is the list order. The only
+// operations ever applied to a container/list.List in package gated are
+// PushBack (a new group goes to the end), Remove, Front, Len and Init, and
+// Element.Next: nothing reorders or inserts elsewhere (MoveToBack on activity,
+// PushFront, InsertBefore, ...), so "oldest first" is the order of group creation.
+func (c *Ctx) ruleListOps(rule string) {
+	p, r := c.P, c.R
+	allowed := map[string]bool{"PushBack": true, "Remove": true, "Front": true, "Len": true, "Init": true, "Next": true}
+	n := 0
+	for _, f := range p.FuncsIn(PkgGated) {
+		eachInstr(f, func(in ssa.Instruction) {
+			ci, ok := in.(ssa.CallInstruction)
+			if !ok {
+				return
+			}
+			sc := ci.Common().StaticCallee()
+			if sc == nil || sc.Pkg == nil || sc.Pkg.Pkg.Path() != "container/list" || sc.Signature.Recv() == nil {
+				return
+			}
+			n++
+			r.Check(allowed[sc.Name()], rule, p.ShortFn(f)+"->list."+sc.Name(), p.InstrPos(in), "order-preserving list operation", "list operation "+sc.Name()+" can reorder or insert out of arrival order: expiry and FlushAll emit groups in list order, which must stay the order in which the groups were opened")
+		})
+	}
+	if n < 6 {
+		r.Und(rule, "instance-floor", "", fmt.Sprintf("only %d list operations found in package gated (>= 6 confirmed by hand)", n))
+	}
 }
